@@ -315,6 +315,41 @@ def statements(draw, depth, scope, counter, in_loop=False):
             else:
                 cond = ["LessThan", ["var", name], ["int", bound]]
             body = draw(statements(depth - 1, dict(scope), counter, True))
+            shape = draw(st.integers(0, 7))
+            pre = []
+            if shape == 0 and bound >= 1:
+                # 'retry': the counter is also stepped back, once, inside the body (a flag keeps the loop finite) - a
+                # loop recognised by its init / bound / trailing increment alone does not run 'bound' times
+                flag = f"v{counter[0]}"
+                counter[0] += 1
+                pre.append(["declassign", "int", flag, ["int", 0]])
+                k = 4 + draw(st.integers(0, N_OUT - 1))
+                retry = ["branch", ["Equal", ["var", flag], ["int", 0]],
+                         [["assign", ["var", flag], ["int", 1]], ["assign", ["var", name], ["Subtract", ["var", name], ["int", 1]]]], []]
+                count = ["assign", ["aidx", "vals", ["int", k]], ["Add", ["aidx", "vals", ["int", k]], ["flt", 1.0]]]
+                k2 = draw(st.integers(0, len(body)))  # (statements are never duplicated: every declaration keeps a fresh name)
+                body = [count] + body[:k2] + [retry] + body[k2:]
+            elif shape == 1 and scope["int"]:
+                # a fact established before the loop (v is a copy of x / v is a constant) is used inside the loop *before*
+                # it is destroyed there: only the second trip sees the difference (loop back edge)
+                x = draw(st.sampled_from(scope["int"]))
+                v = f"v{counter[0]}"
+                counter[0] += 1
+                pre.append(["declassign", "int", v, ["var", x] if draw(st.integers(0, 2)) else ["int", draw(st.sampled_from(INT_LITS))]])
+                cmp_ = draw(st.sampled_from(["Equal", "NotEqual", "LessThan", "GreaterThan", "LessThanOrEqual", "GreaterThanOrEqual"]))
+                k = 4 + draw(st.integers(0, N_OUT - 1))
+                rhs = ["var", x] if pre[-1][3][0] == "var" else pre[-1][3]
+                use = ["assign", ["aidx", "vals", ["int", k]],
+                       ["Add", ["aidx", "vals", ["int", k]], ["b2i", [cmp_, ["var", v], rhs] if draw(st.booleans()) else [cmp_, rhs, ["var", v]]]]]
+                kill = ["assign", ["var", v], ["Add", ["var", v], ["int", draw(st.sampled_from([1, 1, 2, -1]))]]]
+                body = [use] + body + [kill]
+                if draw(st.integers(0, 2)) == 0:
+                    cond = ["And", cond, [draw(st.sampled_from(["LessThanOrEqual", "Equal", "GreaterThanOrEqual"])), ["var", v], rhs]] \
+                        if cond[0] != "bool" else cond
+                bound = max(bound, 2)
+                if cond[0] == "LessThan":
+                    cond = ["LessThan", ["var", name], ["int", bound]]
+            out.extend(pre)
             out.append(["declassign", "int", name, ["int", 0]])
             out.append(["loop", cond, body + [["assign", ["var", name], ["Add", ["var", name], ["int", 1]]]]])
             if draw(st.integers(0, 9)) == 0:
@@ -551,6 +586,62 @@ STREAMS = {
 }
 
 
+# ------------------------------------------------- (c) enumerated small patterns (finite, exhaustive)
+CMP = ["Equal", "NotEqual", "LessThan", "GreaterThan", "LessThanOrEqual", "GreaterThanOrEqual"]
+ENUM_ENVS = [{"ints": [a, b, 1, 0], "iarr": [0, 1, 2, 3], "floats": [fa, fb, 0.1, 1e200]}
+             for (a, b), (fa, fb) in zip([(1, 1), (0, 1), (2, 1), (-1, -1), (0, 0), (-2, 3)],
+                                         [(0.5, 0.5), (0.0, 1.0), (2.25, 1.0), (-1.5, -1.5), (0.0, 0.0), (-0.3, 1 / 3)])]
+
+
+def enumerated_programs():
+    """Every instance of a few finite pattern families, one store per program:
+    (1) two comparisons over one operand pair joined by And/Or - all 6x6 operator pairs, both operand orders, int and
+        float operands; (2) op(x, literal) and op(literal, x) for every arithmetic operator, literal in {0, 1, -1, 2}
+        (int) / {0.0, 1.0, -1.0, 0.5} (float), plain and nested once more; (3) And/Or with a constant on either side;
+    (4) a comparison of an operand with itself.  Rules keyed on 'the same operands' or 'this literal' fire on all of them."""
+    progs = []
+
+    def prog(e, ty):
+        val = ["b2i", e] if ty == "bool" else e
+        progs.append({"body": [["assign", ["aidx", "vals", ["int", 4]], val]], "ret": ["int", 0], "envs": ENUM_ENVS, "enumerated": True})
+
+    pairs = [(["var", "x0"], ["var", "x1"]), (["var", "f0"], ["var", "f1"]),
+             (["aidx", "dimensions", ["int", 0]], ["Add", ["var", "x1"], ["int", 0]])]
+    for a, b in pairs:
+        for c1 in CMP:
+            for c2 in CMP:
+                for j in ("And", "Or"):
+                    prog([j, [c1, a, b], [c2, a, b]], "bool")
+                    prog([j, [c1, a, b], [c2, b, a]], "bool")
+        for c in CMP:
+            prog([c, a, a], "bool")
+    for ty, x, lits in (("int", ["var", "x0"], [["int", 0], ["int", 1], ["int", -1], ["int", 2]]),
+                        ("float", ["var", "f0"], [["flt", 0.0], ["flt", 1.0], ["flt", -1.0], ["flt", 0.5]]),
+                        ("float", ["var", "f3"], [["flt", 0.0], ["int", 0], ["int", 1], ["flt", 1.0]])):
+        for op in ("Add", "Subtract", "Multiply"):
+            for lit in lits:
+                prog([op, x, lit], ty)
+                prog([op, lit, x], ty)
+                for op2 in ("Add", "Subtract", "Multiply"):
+                    prog([op2, [op, x, lit], lit], ty)
+                    prog([op2, lit, [op, lit, x]], ty)
+    for j in ("And", "Or"):
+        for k in (True, False):
+            c = ["LessThan", ["var", "x0"], ["var", "x1"]]
+            prog([j, c, ["bool", k]], "bool")
+            prog([j, ["bool", k], c], "bool")
+    return progs
+
+
+def enumerated_task(chunk):
+    from ..runner import Stats
+
+    stats = Stats()
+    for prog in chunk:
+        stats.add(prog, check_program(prog))
+    return stats
+
+
 def program_candidates(prog):
     """Structural shrinking: one environment, drop a statement anywhere, replace a branch/block/loop by its body."""
     if len(prog["envs"]) > 1:
@@ -606,6 +697,11 @@ def run(chk):
     chk.absorb(run_stream(__name__, "kernels", chk.tier, chk.seed, 240 if quick else 8000), kind="case", shrink=shrink_kernel)
     chk.absorb(run_stream(__name__, "programs", chk.tier, chk.seed, 6400 if quick else 200000), kind="program",
                shrink=shrink_program)
+    from ..runner import run_tasks
+
+    progs = enumerated_programs()
+    chk.absorb(run_tasks(enumerated_task, [progs[i : i + 64] for i in range(0, len(progs), 64)]), kind="program", shrink=shrink_program)
+    chk.coverage_extra["enumerated_pattern_programs"] = len(progs)
     if not quick:
         from ..runner import coverage_guided
 
